@@ -130,6 +130,7 @@ package sparseindex
 // x lies in range r
 //@ spec func inr(r *Range, x *FieldRef) bool = (fr_lt(r.left, x) || (r.leftIncluded && fr_eq(x, r.left))) && (fr_lt(x, r.right) || (r.rightIncluded && fr_eq(x, r.right)))
 //@ spec func wfr(r *Range) bool = r != nil && r.left != nil && r.right != nil
+//@ spec func whole(r *Range) bool = r != nil && r.left == NEGATIVE_INFINITY && r.right == POSITIVE_INFINITY
 
 //@ func NewRange
 //@   ensures result != nil && fresh(result)
@@ -152,12 +153,12 @@ package sparseindex
 //@   ensures result != nil && fresh(result)
 //@   assigns nothing
 //@ func createWholeRangeIncludeBound
-//@   requires NEGATIVE_INFINITY != nil && POSITIVE_INFINITY != nil
-//@   ensures wfr(result) && fresh(result)
+//@   ensures fresh(result) && whole(result)
+//@   ensures NEGATIVE_INFINITY != nil && POSITIVE_INFINITY != nil ==> wfr(result)
 //@   assigns nothing
 //@ func createWholeRangeWithoutBound
-//@   requires NEGATIVE_INFINITY != nil && POSITIVE_INFINITY != nil
-//@   ensures wfr(result) && fresh(result)
+//@   ensures fresh(result) && whole(result)
+//@   ensures NEGATIVE_INFINITY != nil && POSITIVE_INFINITY != nil ==> wfr(result)
 //@   assigns nothing
 //@ func createLeftBounded
 //@   requires left != nil && NEGATIVE_INFINITY != nil && POSITIVE_INFINITY != nil
@@ -224,13 +225,19 @@ package sparseindex
 //@     requires arg0 == rightKeys[prefixSize] && (prefixSize+1 == keySize ==> arg1)
 //@   call NewRange
 //@     requires arg0 == leftKeys[prefixSize] && arg1 == rightKeys[prefixSize] && (prefixSize+1 == keySize ==> arg2 && arg3)
+// ... and when it is not the last key column, every LATER key column is unconstrained in the box handed to the
+// check - whatever an earlier box of the recursion left in the shared slice (a stale bound there prunes a fragment
+// that holds a match)
 //@   call callBack
+//@     requires [later_key_columns_unconstrained] prefixSize+1 != keySize ==> (forall k int :: prefixSize < k && k < keySize && k < len(rgs) ==> whole(rgs[k]))
 //@     set cbTrue = cbTrue || (ret1 == nil && ret0.canBeTrue)
 //@   ensures old(cbTrue) ==> cbTrue
 //@   ensures result2 == nil ==> ((cbTrue && !old(cbTrue)) ==> result0.canBeTrue)
 //@   ensures result2 == nil && result1 && prefixSize+1 != keySize ==> result0.canBeTrue && result0.canBeFalse
 //@   loop 1
 //@     invariant cbTrue == old(cbTrue)
+//@     invariant prefixSize + 1 <= i
+//@     invariant forall k int :: prefixSize < k && k < i && k < len(rgs) ==> whole(rgs[k])
 
 //@ func (*KeyConditionImpl).checkRangeLeftBound
 //@   requires 0 <= prefixSize && prefixSize < keySize && keySize <= len(leftKeys) && keySize <= len(rightKeys)
